@@ -401,8 +401,8 @@ class Gen(object):
         r = self.rnd
         v = self.v(9 if r.random() < 0.9 else 0)
         ct = ''
-        if r.random() < 0.5:
-            ct = r.choice(names.CTYPES + ['all', 'unknown'])
+        if r.random() < 0.6:
+            ct = r.choice(names.CTYPES + ['all', 'unknown', 'all', 'unknown'])
         return {'op': 'usages', 'v': v,
                 'project': r.choice(names.PROJECTS + [names.DEFAULT_IPROJ]) if r.random() < 0.95 else '',
                 'user': r.choice(names.USERS + ['']), 'ctype': ct}
